@@ -128,6 +128,12 @@ func init() {
 				}
 				return reactorRaceFeedback(num(in, "rounds", 2000))
 			}
+			if op == "racefreeze" {
+				if reactor.VerifRunning() {
+					reactor.Stop()
+				}
+				return reactorRaceFreeze(num(in, "rounds", 200))
+			}
 			if op == "stress" {
 				if reactor.VerifRunning() {
 					reactor.Stop()
@@ -445,6 +451,94 @@ func reactorRaceFeedback(rounds int) string {
 			if err := reactor.MarkAsFinished(it); err != nil {
 				return fmt.Sprintf("bad round=%d tracked seed cannot be finished: %v", r, err)
 			}
+		}
+	}
+	return "ok"
+}
+
+// reactorRaceFreeze: a saturated reactor with inserts waiting for a token; one seed is finished (its token passes to a waiting insert) and
+// Freeze() follows at once - the shutdown sequence. Afterwards: an insert that was rejected left nothing behind (not tracked, no token), an
+// insert that was accepted is tracked, holds a token and reaches the output once a consumer reads; tokens in use = tracked seeds.
+func reactorRaceFreeze(rounds int) string {
+	mk := func(id string) *models.Item {
+		u := &models.URL{Raw: "http://h.example/" + id}
+		_ = u.Parse()
+		return models.NewItem(id, u, "")
+	}
+	for r := 0; r < rounds; r++ {
+		out := make(chan *models.Item, 8)
+		if err := reactor.Start(2, out); err != nil {
+			return "start-failed " + err.Error()
+		}
+		a, b := mk(fmt.Sprintf("a%d", r)), mk(fmt.Sprintf("b%d", r))
+		if reactor.ReceiveInsert(a) != nil || reactor.ReceiveInsert(b) != nil {
+			reactor.Stop()
+			return "insert-failed"
+		}
+		type res struct {
+			it  *models.Item
+			err error
+		}
+		results := make(chan res, 3)
+		var waiting []*models.Item
+		for k := 0; k < 3; k++ {
+			it := mk(fmt.Sprintf("w%d_%d", r, k))
+			waiting = append(waiting, it)
+			go func(it *models.Item) { results <- res{it, reactor.ReceiveInsert(it)} }(it)
+		}
+		time.Sleep(time.Duration(200+r%7*100) * time.Microsecond) // the three inserts are parked on the token pool
+		_ = reactor.MarkAsFinished(a)
+		reactor.Freeze()
+		accepted, rejected := map[string]bool{}, map[string]bool{}
+		for k := 0; k < 3; k++ {
+			select {
+			case x := <-results:
+				if x.err == nil {
+					accepted[x.it.GetID()] = true
+				} else {
+					rejected[x.it.GetID()] = true
+				}
+			case <-time.After(3 * time.Second):
+				reactor.Stop()
+				return fmt.Sprintf("bad round=%d an insert waiting for a token was not woken by Freeze", r)
+			}
+		}
+		// a consumer reads whatever the reactor still delivers
+		got := map[string]bool{}
+		deadline := time.After(300 * time.Millisecond)
+	drain:
+		for {
+			select {
+			case it := <-out:
+				got[it.GetID()] = true
+			case <-deadline:
+				break drain
+			}
+			if len(got) >= 2+len(accepted) {
+				break
+			}
+		}
+		tracked := map[string]bool{}
+		for _, id := range reactor.GetStateTable() {
+			tracked[id] = true
+		}
+		tokens := reactor.VerifTokens()
+		reactor.Stop()
+		for id := range rejected {
+			if tracked[id] {
+				return fmt.Sprintf("bad round=%d insert of %s was rejected (reactor frozen) but the seed is tracked; tokens-in-use=%d tracked=%d", r, id, tokens, len(tracked))
+			}
+		}
+		for id := range accepted {
+			if !tracked[id] {
+				return fmt.Sprintf("bad round=%d insert of %s was accepted but the seed is not tracked", r, id)
+			}
+			if !got[id] {
+				return fmt.Sprintf("bad round=%d accepted seed %s never reached the output although a consumer kept reading", r, id)
+			}
+		}
+		if tokens != len(tracked) {
+			return fmt.Sprintf("bad round=%d tokens-in-use=%d tracked=%d after a freeze raced the inserts", r, tokens, len(tracked))
 		}
 	}
 	return "ok"
